@@ -142,6 +142,11 @@ def plans(tier, seed):
         P.append((('vacuum', (1, 'mid'), N, p, seed), red, 2))
         P.append((('tensor', (1, 'always'), N, p, seed), small, 3))
         P.append((('components', (2, 'mid'), N, p, seed), small, 3))
+        # a component triple followed by a quantity that re-uses the method
+        # assembling it (alternative derivations '..._fromMom/_fromHam')
+        P.append((('tensor', dflt, N, p, seed),
+                  ['Momentumx', 'Momentumy', 'Momentumz',
+                   'fluxup3_n_fromMom', 'rho_n_fromHam', 'Momentumup3'], 4))
         P.append((('rho_only', (1, 'always'), N, p, seed),
                   ['rho0', 'eps', 'rho', 'enthalpy', 'press', 'conserved_D',
                    'conserved_E', 'rho_n', 'Tdown4', 'gammadet', 'Ttrace'],
